@@ -472,6 +472,12 @@ impl ParserProp {
 
     // -------------------------------------------------------------- C21
     fn file(&self, s: &mut dyn Src, rep: &mut Report) -> CaseResult {
+        // class 3 (1 file in 5): a legal file *without comments* that is then damaged in one place - truncated anywhere,
+        // a period deleted, a quote or a bracket inserted. Such a file may be rejected; if it is accepted, nothing of its
+        // text may have been dropped or invented on the way ("never silently turned into different rules").
+        let damaged = chance(s, 1, 5);
+        // (kind and place of the damage are drawn now: a choice sequence that the layout uses up would leave only kind 0)
+        let (dmg_kind, dmg_pos, dmg_bracket) = if damaged { (s.draw(5), s.draw(65535) as u64, pick(s, &['(', ')', '[', ']'])) } else { (0, 0, '(') };
         let n = 1 + size(s, 5, 40) as usize;
         let ia = chance(s, 1, 2);
         let st = Style { infix_compare: ia || chance(s, 1, 2), infix_arith: ia, bare_zero_arity: chance(s, 1, 3), ..CANON };
@@ -485,7 +491,7 @@ impl ParserProp {
         // Sometimes the knowledge base is not empty when the file is loaded (rules added through the API before,
         // possibly for the same predicates), and sometimes the same file is loaded twice: loading must add the
         // file's rules, in order, after whatever is there - exactly what add_rules on the parsed rules does.
-        let nprior = if chance(s, 1, 3) { 1 + s.draw(3) as usize } else { 0 };
+        let nprior = if !damaged && chance(s, 1, 3) { 1 + s.draw(3) as usize } else { 0 };
         let mut prior: Vec<String> = vec![];
         for _ in 0..nprior {
             let mut c = c_clause(s);
@@ -493,7 +499,7 @@ impl ParserProp {
             if let Some(b) = &c.body { if !infix_arith_ok(b) && st.infix_arith { c.body = Some(Goal::Nl); } }
             prior.push(render::clause(&c, &st));
         }
-        let twice = chance(s, 1, 6);
+        let twice = !damaged && chance(s, 1, 6);
         // each rule text must itself be acceptable to parse_rule (otherwise the file is not in the claim)
         let mut reference = suiron::KnowledgeBase::new();
         let mut loaded = suiron::KnowledgeBase::new();
@@ -515,7 +521,7 @@ impl ParserProp {
         let (mut multi, mut comment, mut floaty) = (false, false, false);
         let comment_text = |s: &mut dyn Src| -> String { format!("{} {}", pick(s, &["#", "%", "//"]), pick(s, &["comment", "x(1).", "note: a, b; c", "don't"])) };
         for r in &rules {
-            if chance(s, 1, 4) { file.push_str(&comment_text(s)); file.push('\n'); comment = true; }
+            if !damaged && chance(s, 1, 4) { file.push_str(&comment_text(s)); file.push('\n'); comment = true; }
             if chance(s, 1, 5) { file.push('\n'); }
             if r.contains('.') && r[..r.len() - 1].contains('.') { floaty = true; }
             if r.contains(" = ") || r.contains(" + ") || r.contains(" - ") || r.contains(" < ") { floaty = true; }
@@ -541,7 +547,7 @@ impl ParserProp {
                 // lists and parenthesised groups of goals too)
                 let can_break_here = cont_char && (depth0 || class2);
                 if can_break_here && chance(s, 1, 3) {
-                    if depth0 && chance(s, 1, 4) && !line_has_open { file.push_str("  "); file.push_str(&comment_text(s)); comment = true; }
+                    if !damaged && depth0 && chance(s, 1, 4) && !line_has_open { file.push_str("  "); file.push_str(&comment_text(s)); comment = true; }
                     file.push('\n');
                     multi = true;
                     line_has_open = !depth0;
@@ -552,7 +558,7 @@ impl ParserProp {
                 }
                 i += 1;
             }
-            let trailing_comment = chance(s, 1, 4);
+            let trailing_comment = !damaged && chance(s, 1, 4);
             if trailing_comment { file.push_str("   "); file.push_str(&comment_text(s)); comment = true; }
             // a comment runs to the end of its line, so the next rule starts on a new line
             if trailing_comment || chance(s, 2, 3) { file.push('\n'); } else { file.push(' '); }
@@ -560,6 +566,36 @@ impl ParserProp {
         let dir = format!("{}/work/tmp", std::env::var("VERIF_DIR").unwrap_or_else(|_| "/verif".into()));
         let _ = std::fs::create_dir_all(&dir);
         let path = format!("{}/c21-{}.txt", dir, std::process::id());
+        if damaged {
+            let mut chars: Vec<char> = file.chars().collect();
+            let len = chars.len() as u64;
+            let at = |n: u64| -> usize { ((dmg_pos * n) >> 16) as usize };   // position in 0..n
+            let what = match dmg_kind {
+                0 => { let i = 1 + at(len.max(2) - 1); chars.truncate(i); "truncated" }
+                1 => { let ps: Vec<usize> = chars.iter().enumerate().filter(|(_, c)| **c == '.').map(|(i, _)| i).collect(); if ps.is_empty() { "unchanged" } else { let i = ps[at(ps.len() as u64)]; chars.remove(i); "period deleted" } }
+                2 => { let i = at(len + 1); chars.insert(i, '"'); "quote inserted" }
+                3 => { let i = at(len + 1); chars.insert(i, dmg_bracket); "bracket inserted" }
+                _ => { let i = at(len + 1); chars.insert(i, '\n'); "line break inserted" }
+            };
+            let text: String = chars.into_iter().collect();
+            if std::fs::write(&path, &text).is_err() { return CaseResult::Discard("cannot write scratch file".into()); }
+            let case = format!("---- damaged file ({}) ----\n{}\n---- end ----", what, text);
+            let mut kb = suiron::KnowledgeBase::new();
+            let res = match guarded(u64::MAX, || suiron::load_kb_from_file(&mut kb, &path)) { Ok(r) => r, Err(f) => return fail(self.id, "loader-panic", format!("{:?}", f), case) };
+            rep.class(&format!("class3:damaged:{}", what));
+            if res.is_some() { rep.class("class3:rejected-with-error"); rep.nontrivial(fnv(&text)); return CaseResult::Pass; }
+            // accepted: every non-blank character of the file must be in exactly the rules that were read, in order
+            let read = match guarded(u64::MAX, || suiron::read_facts_and_rules(&path)) { Ok(Ok(r)) => r, Ok(Err(e)) => return fail(self.id, "reader-inconsistent", format!("load_kb_from_file accepted the file but read_facts_and_rules says {}", e), case), Err(f) => return fail(self.id, "loader-panic", format!("{:?}", f), case) };
+            let squash = |t: &str| -> String { t.chars().filter(|c| !c.is_whitespace()).collect() };
+            if squash(&read.concat()) != squash(&text) {
+                return fail(self.id, "text-silently-dropped", format!("the file was accepted without an error, but the rules read from it are\n{:?}\nwhich is not the text of the file", read), case);
+            }
+            let mut reference = suiron::KnowledgeBase::new();
+            for r in &read { match parse_guard(|| suiron::parse_rule(r)) { Ok(Ok(rule)) => suiron::add_rules(&mut reference, vec![rule]), _ => return fail(self.id, "accepted-unparsable-rule", format!("the file was accepted, but parse_rule rejects {:?}", r), case) } }
+            if suiron::format_kb(&kb) != suiron::format_kb(&reference) { return fail(self.id, "silently-different", format!("loaded:\n{}\nrule-by-rule:\n{}", suiron::format_kb(&kb), suiron::format_kb(&reference)), case); }
+            rep.class("class3:accepted-and-complete");
+            return CaseResult::Pass;
+        }
         if std::fs::write(&path, &file).is_err() { return CaseResult::Discard("cannot write scratch file".into()); }
         let res = match guarded(u64::MAX, || { let r1 = suiron::load_kb_from_file(&mut loaded, &path); if twice && r1.is_none() { suiron::load_kb_from_file(&mut loaded, &path) } else { r1 } }) {
             Ok(r) => r,
